@@ -821,6 +821,8 @@ def gen_history(rng, nops: int, p_bnd: float = 0.06, p_reserved: float = 0.03) -
         r = rng.random()
         op: Optional[list] = None
         upd = None
+        if 0.20 <= r < 0.49 and not annotated and rng.random() < 0.6:
+            continue        # delete / move / copy mostly once something carries metadata
         if r < 0.04 and not ro:
             if rng.random() < 0.45:
                 ro_acl = rng.random() < 0.4
@@ -913,6 +915,11 @@ def gen_history(rng, nops: int, p_bnd: float = 0.06, p_reserved: float = 0.03) -
             if have and rng.random() < 0.85:
                 t, sc = rng.choice(have)
                 upd = lambda: mir.meta.discard((t, sc))  # noqa: E731
+            elif have and rng.random() < 0.6:
+                # a schema that is in use elsewhere, at a node that does not carry it
+                t, sc = tuple(some_existing()), rng.choice(have)[1]
+            elif not have and rng.random() < 0.8:
+                continue
             else:
                 t, sc = tuple(some_existing()), rng.choice(GOOD_EPS + BAD_EPS[:1])
             op = ["detach", absname(list(t)), sc]
